@@ -316,6 +316,42 @@ func runBuild(c *Ctx) {
 			}
 		})
 		c.R.Add("VSET", "FromSignature|each-value-from-its-own-field", core.FuncName(m), p.Pos(m.Pos()), ok, "loading a rendered signature stores into each value the struct field at that value's own index", fmt.Sprintf("ok=%v", ok))
+		// the struct is read the way SignatureValues renders it: the element handed in (or the struct this function
+		// builds itself), never a dereference of it — SignatureValues renders the struct by value whatever pointer
+		// depth the original signature had, so an Elem() here panics on every built function over such a set
+		{
+			deref := ""
+			p.RegionInstrs(m, func(in ssa.Instruction) {
+				cl, isC := in.(*ssa.Call)
+				if !isC || core.CalleeName(cl.Common()) != "(reflect.Value).Field" {
+					return
+				}
+				var walk func(v ssa.Value, d int)
+				seen := map[ssa.Value]bool{}
+				walk = func(v ssa.Value, d int) {
+					if v == nil || d > 6 || seen[v] {
+						return
+					}
+					seen[v] = true
+					switch x := v.(type) {
+					case *ssa.Phi:
+						for _, e := range x.Edges {
+							walk(e, d+1)
+						}
+					case *ssa.Call:
+						if core.CalleeName(x.Common()) == "(reflect.Value).Elem" || core.CalleeName(x.Common()) == "reflect.Indirect" {
+							if nc, ok := core.Strip(x.Common().Args[0]).(*ssa.Call); ok && core.CalleeName(nc.Common()) == "reflect.New" {
+								return // the struct the function builds itself
+							}
+							deref = "the struct is dereferenced at " + p.InstrPos(x) + " before its fields are read"
+						}
+					}
+				}
+				walk(cl.Common().Args[0], 0)
+			})
+			c.R.Add("VSET", "FromSignature|struct-read-as-rendered", core.FuncName(m), p.Pos(m.Pos()), deref == "",
+				"the loader reads the fields of the struct it is handed exactly as the renderer (SignatureValues) produced it: by value, without dereferencing", ternary(deref == "", "no dereference", deref))
+		}
 	}
 	if m := vs("SignatureValues"); m != nil {
 		c.R.Func(core.FuncName(m))
@@ -435,6 +471,26 @@ func runBuild(c *Ctx) {
 			}
 		}
 		c.R.Add("VSET", "SignatureValues|each-field-from-its-own-value", core.FuncName(m), p.Pos(m.Pos()), ok, "rendering sets each struct field from the value with that index (its value, or zero when unset)", fmt.Sprintf("ok=%v", ok))
+		// the struct form is rendered BY VALUE: what is returned is the Elem() of the struct this function makes, never
+		// its address — the loader (FromSignature) reads fields straight off what it is handed, and BuildFunc types its
+		// function by Signature(), which must then be the struct type itself (checked on Signature below)
+		{
+			wrapped := ""
+			p.RegionInstrs(m, func(in ssa.Instruction) {
+				if cl, isC := in.(*ssa.Call); isC && (core.CalleeName(cl.Common()) == "(reflect.Value).Addr" || core.CalleeName(cl.Common()) == "reflect.PtrTo" || core.CalleeName(cl.Common()) == "reflect.PointerTo") {
+					wrapped = core.ShortCallee(core.CalleeName(cl.Common())) + " at " + p.InstrPos(in)
+				}
+			})
+			if sg := vs("Signature"); sg != nil {
+				p.RegionInstrs(sg, func(in ssa.Instruction) {
+					if cl, isC := in.(*ssa.Call); isC && (core.CalleeName(cl.Common()) == "reflect.PtrTo" || core.CalleeName(cl.Common()) == "reflect.PointerTo") {
+						wrapped = core.ShortCallee(core.CalleeName(cl.Common())) + " at " + p.InstrPos(in)
+					}
+				})
+			}
+			c.R.Add("VSET", "SignatureValues|struct-rendered-by-value", core.FuncName(m), p.Pos(m.Pos()), wrapped == "",
+				"the struct form of a value set is rendered by value, as the loader reads it (no pointer is put around the struct or its type)", ternary(wrapped == "", "by value", "wrapped by "+wrapped))
+		}
 		// the positional (lifted) form: every element written into the rendered list is the value-or-zero of the set's
 		// value whose own index addresses the slot (an unset value renders as the zero of its type, never as an invalid
 		// reflect.Value, which reflect.MakeFunc / Call refuse)
